@@ -39,6 +39,9 @@ static int nextGenericKeyIter(SetIteration* i)
 {
     PyObject* next = NULL;
     int copied = 1;
+    int have_previous;
+    KEY_TYPE previous;
+    KEY_TYPE key;
 
     if (i->position < 0)
     {
@@ -46,32 +49,67 @@ static int nextGenericKeyIter(SetIteration* i)
         return 0;
     }
 
-    if (i->position)
+    /* If we've been called before, i->key is the key handed out last time
+     * and we own a reference to it.  It is released once the next distinct
+     * key has been found; on an error it is left for finiSetIteration. */
+    have_previous = i->position > 0;
+    if (have_previous)
     {
-        /* If we've been called before, release the key cache. */
-        DECREF_KEY(i->key);
+        COPY_KEY(previous, i->key);
     }
 
-    i->position += 1;
-    next = PyIter_Next(i->set);
-    if (next == NULL)
+    for (;;)
     {
-        /* Either an error, or the end of iteration. */
-        if (!PyErr_Occurred())
+        next = PyIter_Next(i->set);
+        if (next == NULL)
         {
+            if (PyErr_Occurred())
+            {
+                /* Propagate the error. */
+                return -1;
+            }
             /* End of iteration. */
+            if (have_previous)
+            {
+                DECREF_KEY(previous);
+            }
             i->position = -1;
             return 0;
         }
-        /* Propagate the error. */
-        return -1;
-    }
 
-    COPY_KEY_FROM_ARG(i->key, next, copied);
-    Py_DECREF(next);
-    UNLESS(copied) return -1;
-    INCREF_KEY(i->key);
-    return 0;
+        COPY_KEY_FROM_ARG(key, next, copied);
+        if (!copied)
+        {
+            Py_DECREF(next);
+            return -1;
+        }
+        INCREF_KEY(key);
+        Py_DECREF(next);
+
+        if (have_previous)
+        {
+            /* initSetIteration sorted the iterable, so equal keys are
+             * adjacent:  hand each key out once, as a set would. */
+            int cmp;
+            int failed = 0;
+            TEST_KEY_SET_OR(cmp, key, previous)
+                failed = 1;
+            if (failed)
+            {
+                DECREF_KEY(key);
+                return -1;
+            }
+            if (cmp == 0)
+            {
+                DECREF_KEY(key);
+                continue;
+            }
+            DECREF_KEY(previous);
+        }
+        COPY_KEY(i->key, key);
+        i->position += 1;
+        return 0;
+    }
 }
 
 /* initSetIteration
